@@ -282,3 +282,36 @@ Proof.
     + intros ps Ha v Hv. rewrite af_tag_then, (Ha v Hv), acts_app'. apply Hp. now apply af_acts_normal.
     + intros ps Hb v Hv. rewrite af_tag_then, (Hb v Hv), acts_app'. apply Hp. now apply af_acts_normal.
 Qed.
+
+(** ---- Flip: modifier type [unit], yet lazy; pending = parity of the unpushed flips ---- *)
+Definition fl_pending (x : flip) (ms : list unit) : Prop := fl_flip x = Nat.odd (length ms).
+
+Lemma fl_act_invol m v : fl_act m (fl_act m v) = v.
+Proof. destruct v as [a l]. unfold fl_act. simpl. f_equal. lia. Qed.
+Lemma fl_acts ms v : acts fl_act ms v = if Nat.odd (length ms) then fl_act tt v else v.
+Proof.
+  induction ms as [|m ms IH] using rev_ind; [reflexivity|].
+  rewrite acts_snoc, IH, app_length. simpl length. rewrite Nat.add_1_r, Nat.odd_succ, <- Nat.negb_odd.
+  destruct m. destruct (Nat.odd (length ms)); simpl; [apply fl_act_invol|reflexivity].
+Qed.
+Lemma odd_length_app {A} (ps ms : list A) : Nat.odd (length (ps ++ ms)) = xorb (Nat.odd (length ps)) (Nat.odd (length ms)).
+Proof. rewrite app_length. apply Nat.odd_add. Qed.
+
+Lemma flip_lawful : lawful fl_merge (upd_of fl_merge) fl_modify fl_push fl_obs sa_vmerge fl_act fl_pending.
+Proof.
+  constructor.
+  - intros [? ?] [? ?] [? ?]. unfold sa_vmerge; simpl. f_equal; lia.
+  - reflexivity.
+  - reflexivity.
+  - reflexivity.
+  - intros m [a1 l1] [a2 l2]. unfold fl_act, sa_vmerge; simpl. f_equal; lia.
+  - reflexivity.
+  - intros a ms m H. unfold fl_pending in *. simpl. rewrite odd_length_app, H. simpl. now rewrite xorb_true_r.
+  - intros x a b x' a' b' ms Hp E. unfold fl_pending in Hp. unfold fl_push in E. rewrite !fl_acts, <- Hp.
+    destruct (fl_flip x) eqn:Ef; injection E as <- <- <-; unfold fl_pending; split6; try reflexivity.
+    + intros ps Ha. rewrite odd_length_app, <- Hp, <- Ha. simpl. now rewrite xorb_true_r.
+    + intros ps Hb. rewrite odd_length_app, <- Hp, <- Hb. simpl. now rewrite xorb_true_r.
+    + exact Ef.
+    + intros ps Ha. rewrite odd_length_app, <- Hp, <- Ha. now rewrite xorb_false_r.
+    + intros ps Hb. rewrite odd_length_app, <- Hp, <- Hb. now rewrite xorb_false_r.
+Qed.
